@@ -378,3 +378,134 @@ theorem afterTopK_spec {o : Ops α} (h : OrdLaws o) (hz : AddZeroLaw o) (hb : Be
     have := zip_all_get _ _ _ idx y.val sv hsc.2 hyv hsv
     rw [hsv_ne] at this
     simpa using this
+/-! ### ids only (no laws, no contracts: holds on every carrier, NaN included) -/
+
+theorem pick_id (o : Ops α) (r : α) (L : List (Tok α)) (t : Tok α) (hp : pick o r L = .ok t) :
+    ∃ (idx : Nat) (x : Tok α), L[idx]? = some x ∧ x.id = t.id := by
+  unfold pick at hp
+  simp only at hp
+  split at hp
+  · cases hp
+  · split at hp
+    · cases hp
+    · split at hp
+      · rename_i t' hidx
+        injection hp with hp
+        subst hp
+        obtain ⟨x, hx, hid, _⟩ := cumsum_get o L o.zero _ t' hidx
+        exact ⟨_, x, hx, hid.symm⟩
+      · cases hp
+
+theorem afterTopK_id (o : Ops α) (P : Params α) (r : α) (L : List (Tok α)) (t : Tok α)
+    (hres : afterTopK o false P r L = .ok t) : ∃ y ∈ L, y.id = t.id := by
+  unfold afterTopK at hres
+  simp only [Bool.false_eq_true, if_false, bind, Except.bind, pure, Except.pure] at hres
+  split at hres
+  · cases hres
+  · rename_i f hf
+    obtain ⟨idx, x, hx, hid⟩ := pick_id o r f t hres
+    have hpre : f <+: probsOf o P L :=
+      List.IsPrefix.trans (minP_prefix o _ _ _ hf) (topP_prefix o _ _)
+    have hxp : (probsOf o P L)[idx]? = some x := prefix_get hpre hx
+    unfold probsOf softmax at hxp
+    obtain ⟨s, pv, hs, _, hxe⟩ := setVals_get _ _ _ _ hxp
+    unfold temperature at hs
+    obtain ⟨y, sv, hy, _, hse⟩ := setVals_get _ _ _ _ hs
+    refine ⟨y, List.mem_of_getElem? hy, ?_⟩
+    rw [← hid, hxe, hse]
+
+/-! ### tokens built from the logits -/
+
+theorem mkTokensFrom_mem (i : Nat) (vs : List α) (x : Tok α) (hx : x ∈ mkTokensFrom i vs) :
+    ∃ j, x.id = i + j ∧ vs[j]? = some x.val := by
+  induction vs generalizing i with
+  | nil => simp [mkTokensFrom] at hx
+  | cons v vs ih =>
+    simp only [mkTokensFrom, List.mem_cons] at hx
+    rcases hx with rfl | hx
+    · exact ⟨0, rfl, rfl⟩
+    · obtain ⟨j, hj, hv⟩ := ih (i + 1) hx
+      exact ⟨j + 1, by omega, by simpa using hv⟩
+
+theorem mkTokens_mem (vs : List α) (x : Tok α) (hx : x ∈ mkTokens vs) : vs[x.id]? = some x.val := by
+  obtain ⟨j, hj, hv⟩ := mkTokensFrom_mem 0 vs x hx
+  have : x.id = j := by omega
+  rw [this]; exact hv
+
+/-! ### top-k -/
+
+/-- what `topK` owes its callers -/
+structure IsTopK (o : Ops α) (k : Int) (ts out : List (Tok α)) : Prop where
+  len : out.length = if k ≥ ts.length ∨ k ≤ 0 then ts.length else k.toNat
+  desc : out.Pairwise (fun a b => o.lt a.val b.val = false)
+  sub : ∃ rest, (out ++ rest).Perm ts ∧ ∀ x ∈ rest, ∀ y ∈ out, o.lt y.val x.val = false
+
+theorem IsTopK.mem {o : Ops α} {k : Int} {ts out : List (Tok α)} (h : IsTopK o k ts out) :
+    ∀ x ∈ out, x ∈ ts := by
+  intro x hx
+  obtain ⟨rest, hp, _⟩ := h.sub
+  exact hp.mem_iff.1 (List.mem_append_left _ hx)
+
+theorem sortDesc_perm (o : Ops α) (ts : List (Tok α)) : (sortDesc o ts).Perm ts :=
+  List.mergeSort_perm _ _
+
+theorem sortDesc_pairwise {o : Ops α} (h : OrdLaws o) (ts : List (Tok α)) :
+    (sortDesc o ts).Pairwise (fun a b => o.lt a.val b.val = false) := by
+  have := List.pairwise_mergeSort (le := descLE o)
+    (fun a b c hab hbc => by
+      simp only [descLE, Bool.not_eq_true'] at *
+      exact h.nlt_trans hab hbc)
+    (fun a b => by
+      simp only [descLE, Bool.or_eq_true, Bool.not_eq_true']
+      cases hab : o.lt a.val b.val with
+      | false => exact Or.inl rfl
+      | true => exact Or.inr (h.asymm hab)) ts
+  refine this.imp ?_
+  intro a b hab
+  simpa [descLE] using hab
+
+/-- the specification-level top-k (k first of the stable descending sort) meets `IsTopK` -/
+theorem topKSpec_isTopK {o : Ops α} (h : OrdLaws o) (k : Int) (ts : List (Tok α)) :
+    IsTopK o k ts (topKSpec o k ts) := by
+  have hperm := sortDesc_perm o ts
+  have hpw := sortDesc_pairwise h ts
+  unfold topKSpec
+  split
+  · rename_i hk
+    refine ⟨by simp [hk, hperm.length_eq], hpw, [], by simpa using hperm, by simp⟩
+  · rename_i hk
+    have hk' : ¬ (k ≥ ts.length) ∧ ¬ (k ≤ 0) := by
+      constructor <;> intro hh <;> exact hk (by simp [hh])
+    refine ⟨?_, ?_, (sortDesc o ts).drop k.toNat, ?_, ?_⟩
+    · simp only [hk, if_false, List.length_take, hperm.length_eq]
+      omega
+    · exact hpw.sublist (List.take_sublist _ _)
+    · rw [List.take_append_drop]; exact hperm
+    · intro x hx y hy
+      have := hpw
+      rw [← List.take_append_drop k.toNat (sortDesc o ts), List.pairwise_append] at this
+      exact this.2.2 y hy x hx
+
+/-- on its sorting branch the implemented `topK` is the specification -/
+theorem topK_sort_branch (o : Ops α) (k : Int) (ts : List (Tok α)) (hk : k ≥ ts.length ∨ k ≤ 0) :
+    topK o k ts = topKSpec o k ts := by
+  simp [topK, topKSpec, hk]
+
+/-! ### the seeded stream -/
+
+/-- state after `n` draws -/
+def advance {σ β : Type} (step : σ → β × σ) : Nat → σ → σ
+  | 0, s => s
+  | n + 1, s => advance step n (step s).2
+
+/-- the k-th output does not depend on how many are drawn after it -/
+theorem streamOf_append {σ β : Type} (step : σ → β × σ) (m n : Nat) (s : σ) :
+    streamOf step (m + n) s = streamOf step m s ++ streamOf step n (advance step m s) := by
+  induction m generalizing s with
+  | zero => simp [streamOf, advance]
+  | succ m ih =>
+    rw [Nat.add_right_comm]
+    simp only [streamOf, advance, List.cons_append]
+    rw [ih]
+
+end OllamaVerif.Sampler
